@@ -192,3 +192,43 @@ Proof.
   destruct (get (abn s) n); [|discriminate].
   destruct (negb _); [discriminate|]. cbn [fst abn nba]. intros _. apply get_del_same.
 Qed.
+
+(* ---- the constructor Namer(entries=...) ---- *)
+
+Lemma construct_inv entries : forall s s', Inv s -> construct s entries = Ok s' -> Inv s'.
+Proof.
+  induction entries as [|[n a] rest IH]; intros s s' H E; cbn [construct] in E.
+  - inversion E; subst; exact H.
+  - destruct (add s n a) as [s1 r] eqn:Ea. destruct r as [b|k]; [|discriminate].
+    eapply IH; [|exact E]. change s1 with (fst (s1, @Ok bool b)). rewrite <- Ea. now apply add_inv.
+Qed.
+
+(* an object built by the constructor and then driven by any operations has inverse maps *)
+Lemma constructed_run_inv entries ops s0 :
+  construct init entries = Ok s0 -> Inv (fst (run s0 ops)).
+Proof. intro E. apply run_inv. eapply construct_inv; [apply inv_init|exact E]. Qed.
+
+(* the constructor accepts exactly the entry lists whose adds are all accepted, and then it is the
+   same as adding them one by one: a conflicting entry (an address already held by another name, or a
+   name already bound to another address) makes it raise *)
+Lemma construct_as_run entries : forall s,
+  construct s entries =
+  let (s', rs) := run s (map (fun e => Add (fst e) (snd e)) entries) in
+  match find (fun r => match r with Exc _ => true | Ok _ => false end) rs with
+  | Some (Exc k) => Exc k
+  | _ => Ok s'
+  end.
+Proof.
+  induction entries as [|[n a] rest IH]; intro s; cbn [construct map run fst snd]; [reflexivity|].
+  cbn [step]. destruct (add s n a) as [s1 r] eqn:Ea. destruct r as [b|k].
+  - rewrite IH. destruct (run s1 _) as [s2 rs]. cbn [find]. reflexivity.
+  - destruct (run s1 _) as [s2 rs]. cbn [find]. reflexivity.
+Qed.
+
+Lemma add_conflict_addr s n a n0 :
+  falsy n = false -> falsy a = false -> get (abn s) n = None -> get (nba s) a = Some n0 -> n0 <> n ->
+  exists k, snd (add s n a) = Exc k.
+Proof.
+  intros Fn Fa Hn Ha Hne. unfold add. rewrite Fn, Fa. cbn [orb]. rewrite Hn, Ha.
+  destruct (N.eqb n n0) eqn:E; [apply N.eqb_eq in E; congruence|]. eexists; reflexivity.
+Qed.
